@@ -93,6 +93,24 @@ func mkSpans(ids []int) *model.TempoSamples {
 	return d
 }
 
+func mkProfile(ids []int) *model.ProfileData {
+	if len(ids) != 1 {
+		panic(sched.HarnessError{Msg: "profile requests carry one profile (the parsers emit one per body)"})
+	}
+	id := ids[0]
+	s := idStr(id)
+	return &model.ProfileData{
+		TimestampNs: []uint64{uint64(id)}, Ptype: []string{s}, ServiceName: []string{s}, PeriodType: []string{s}, PeriodUnit: []string{s},
+		DurationNs: []uint64{uint64(id)}, PayloadType: []string{s}, Payload: [][]byte{[]byte(s)},
+		SamplesTypesUnits: []model.StrStr{{Str1: s, Str2: s}}, Tags: []model.StrStr{{Str1: s, Str2: s}, {Str1: s, Str2: s}},
+		ValuesAgg: []model.ValuesAgg{{ValueStr: s, ValueInt64: int64(id), ValueInt32: int32(id)}},
+		Tree: []model.TreeRootStructure{{Field1: uint64(id), Field2: uint64(id), Field3: uint64(id),
+			ValueArrTuple: []model.ValuesArrTuple{{ValueStr: s, FirstValueInt64: int64(id), SecondValueInt64: int64(id)}}}},
+		Function: []model.Function{{ValueInt64: uint64(id), ValueStr: s}},
+		Size:     100,
+	}
+}
+
 func mkTags(ids []int) *model.TempoTag {
 	d := &model.TempoTag{}
 	for _, id := range ids {
@@ -150,7 +168,38 @@ func idOf(v reflect.Value) (int, bool, error) {
 			}
 			return int(b[len(b)-1]), true, nil
 		}
-		panic(sched.HarnessError{Msg: "idOf: unsupported slice field " + v.Type().String()})
+		// array column: every element must belong to the same submitted row
+		rid, have := 0, false
+		for i := 0; i < v.Len(); i++ {
+			id, ok, err := idOf(v.Index(i))
+			if err != nil {
+				return 0, false, err
+			}
+			if !ok {
+				continue
+			}
+			if have && id != rid {
+				return 0, false, fmt.Errorf("array field mixes submitted rows %d and %d", rid, id)
+			}
+			rid, have = id, true
+		}
+		return rid, have, nil
+	case reflect.Struct:
+		rid, have := 0, false
+		for i := 0; i < v.NumField(); i++ {
+			id, ok, err := idOf(v.Field(i))
+			if err != nil {
+				return 0, false, err
+			}
+			if !ok {
+				continue
+			}
+			if have && id != rid {
+				return 0, false, fmt.Errorf("tuple field mixes submitted rows %d and %d", rid, id)
+			}
+			rid, have = id, true
+		}
+		return rid, have, nil
 	}
 	panic(sched.HarnessError{Msg: "idOf: unsupported field kind " + v.Type().String()})
 }
@@ -366,15 +415,23 @@ func (s *Scenario) Run() any {
 		b = impl.NewTempoSamplesInsertService(opts(func() { a.PlanFlush() }))
 		svcA, svcB = a, b
 		keyA, keyB, tabA, tabB = "spanAttrsService", "spansService", "tags", "traces"
+	case "profile":
+		svcB = impl.NewProfileSamplesInsertService(opts(nil))
+		keyB, tabB = "profileService", "profiles"
 	default:
 		panic(sched.HarnessError{Msg: "unknown kind " + c.Kind})
 	}
-	svcA.Init()
+	var pa *proxy
+	if svcA != nil {
+		svcA.Init()
+	}
 	svcB.Init()
-	sched.GoNamed("runA", true, svcA.Run)
+	if svcA != nil {
+		sched.GoNamed("runA", true, svcA.Run)
+		pa = &proxy{svcA, w, tabA}
+	}
 	sched.GoNamed("runB", true, svcB.Run)
 	sched.Quiesce() // start-up of the service loops is not part of the explored space
-	pa := &proxy{svcA, w, tabA}
 	pb := &proxy{svcB, w, tabB}
 
 	nextID := 1
@@ -385,14 +442,20 @@ func (s *Scenario) Run() any {
 		for k := 0; k < c.Chunks; k++ {
 			var idsA, idsB []int
 			for i := 0; i < c.Rows; i++ {
-				idsA = append(idsA, nextID)
+				if svcA != nil {
+					idsA = append(idsA, nextID)
+				}
 				idsB = append(idsB, nextID+1)
 				nextID += 2
 			}
 			st.IDs = append(st.IDs, idsA...)
 			st.IDs = append(st.IDs, idsB...)
 			pr := &model.ParserResponse{}
-			if c.Kind == "loki" {
+			if c.Kind == "profile" {
+				b := mkProfile(idsB)
+				w.idsOf[b] = idsB
+				pr.ProfileRequest = b
+			} else if c.Kind == "loki" {
 				a, b := mkSeries(idsA), mkSamples(idsB)
 				w.idsOf[a], w.idsOf[b] = idsA, idsB
 				pr.TimeSeriesRequest, pr.SamplesRequest = a, b
@@ -412,7 +475,9 @@ func (s *Scenario) Run() any {
 			return res
 		}
 		ctx := context.WithValue(context.Background(), "node", "n1")
-		ctx = context.WithValue(ctx, keyA, service.IInsertServiceV2(pa))
+		if pa != nil {
+			ctx = context.WithValue(ctx, keyA, service.IInsertServiceV2(pa))
+		}
 		ctx = context.WithValue(ctx, keyB, service.IInsertServiceV2(pb))
 		req, _ := http.NewRequestWithContext(ctx, "POST", "/push", nil)
 		sched.GoNamed(fmt.Sprintf("req%d", r), false, func() {
